@@ -150,6 +150,8 @@ def _pred_polarity(test, pred_matches):
     t, neg = A.strip_not(test)
     if isinstance(t, ast.Call) and pred_matches(t.func):
         return not neg
+    if isinstance(t, ast.Compare) and isinstance(t.left, ast.Call) and pred_matches(t.left.func):
+        return 'narrow'     # `pred(x) is False`, `pred(x) == True` ...: not the truthiness the other sites use
     return None
 
 
@@ -169,6 +171,10 @@ def rule_fp(ctx):
             if pol is None:
                 continue
             sites += 1
+            if pol == 'narrow':
+                rep.ob('FP', K.key(cls, '__iter__', 'keeps-iff-predicate-true'), False, n,
+                       'iteration compares the predicate result with a constant (`%s`) instead of using its truthiness' % A.short(n.test))
+                continue
             y_body = any(isinstance(x, ast.Yield) for x in A.walk_stmts(n.body))
             y_else = any(isinstance(x, ast.Yield) for x in A.walk_stmts(n.orelse))
             skip_body = any(isinstance(x, ast.Continue) for x in A.walk_stmts(n.body))
@@ -198,6 +204,12 @@ def rule_fp(ctx):
             if pol is None:
                 continue
             sites += 1
+            if pol == 'narrow':
+                rep.ob('FP', K.key(cls, '__getitem__', 'keeps-iff-predicate-true'), False, n,
+                       'the key lookup compares the predicate result with a constant (`%s`) while iteration uses its '
+                       'truthiness: for predicates returning 0 / None / numpy.bool_ the lookup answers for filtered-out keys'
+                       % A.short(n.test))
+                continue
             raises = any(isinstance(x, ast.Raise) for x in A.walk_stmts(n.body))
             ret = any(isinstance(x, ast.Return) for x in A.walk_stmts(n.body))
             if raises and not ret:
